@@ -269,6 +269,278 @@ fn static_filters(run: &mut Run, rng: &mut Rng) {
     }
 }
 
+/// the element types of the wide IN-list section
+#[derive(Clone, Copy, Debug, PartialEq)]
+enum LTy {
+    I(u8),
+    U(u8),
+    Dec,
+    Utf8,
+    Utf8View,
+}
+
+impl LTy {
+    fn arrow(&self) -> arrow::datatypes::DataType {
+        use arrow::datatypes::DataType as D;
+        match self {
+            LTy::I(8) => D::Int8,
+            LTy::I(16) => D::Int16,
+            LTy::I(32) => D::Int32,
+            LTy::I(_) => D::Int64,
+            LTy::U(8) => D::UInt8,
+            LTy::U(16) => D::UInt16,
+            LTy::U(32) => D::UInt32,
+            LTy::U(_) => D::UInt64,
+            LTy::Dec => D::Decimal128(20, 0),
+            LTy::Utf8 => D::Utf8,
+            LTy::Utf8View => D::Utf8View,
+        }
+    }
+    fn min(&self) -> i128 {
+        match self {
+            LTy::I(w) => -(1i128 << (w - 1)),
+            LTy::U(_) => 0,
+            LTy::Dec => -99_999_999_999_999_999_999i128,
+            _ => 0,
+        }
+    }
+    fn max(&self) -> i128 {
+        match self {
+            LTy::I(w) => (1i128 << (w - 1)) - 1,
+            LTy::U(w) => (1i128 << w) - 1,
+            LTy::Dec => 99_999_999_999_999_999_999i128,
+            _ => 100_000,
+        }
+    }
+    /// strings: value n ↦ "" for 0 (the placeholder a NULL slot would hold), "s<n>" otherwise
+    fn scalar(&self, v: Option<i128>) -> datafusion_common::ScalarValue {
+        use datafusion_common::ScalarValue as S;
+        let st = |n: i128| if n == 0 { String::new() } else { format!("s{n}") };
+        match self {
+            LTy::I(8) => S::Int8(v.map(|n| n as i8)),
+            LTy::I(16) => S::Int16(v.map(|n| n as i16)),
+            LTy::I(32) => S::Int32(v.map(|n| n as i32)),
+            LTy::I(_) => S::Int64(v.map(|n| n as i64)),
+            LTy::U(8) => S::UInt8(v.map(|n| n as u8)),
+            LTy::U(16) => S::UInt16(v.map(|n| n as u16)),
+            LTy::U(32) => S::UInt32(v.map(|n| n as u32)),
+            LTy::U(_) => S::UInt64(v.map(|n| n as u64)),
+            LTy::Dec => S::Decimal128(v, 20, 0),
+            LTy::Utf8 => S::Utf8(v.map(st)),
+            LTy::Utf8View => S::Utf8View(v.map(st)),
+        }
+    }
+    /// (branchless threshold on the number of non-NULL elements, model of the filter beyond it)
+    fn strategy(&self, non_null: usize) -> (String, u32) {
+        let (max, fallback, w) = match self {
+            LTy::I(8) | LTy::U(8) => (16, "bitmap", 8),
+            LTy::I(16) | LTy::U(16) => (8, "bitmap", 16),
+            LTy::I(32) | LTy::U(32) => (32, "hashset", 32),
+            LTy::I(_) | LTy::U(_) => (16, "hashset", 64),
+            LTy::Dec => (4, "hashset", 128),
+            _ => (0, "hashset", 0), // ArrayStaticFilter: a hash set whatever the length
+        };
+        if non_null <= max { ("branchless".into(), w) } else { (fallback.into(), w) }
+    }
+}
+
+/// IN / NOT IN over every primitive family the static filters specialise, list lengths around and
+/// far beyond every branchless threshold, with and without NULL elements, and probes that include
+/// 0 / "" (the placeholder value stored under a NULL slot of a planner-built list), the type's
+/// MIN and MAX, NULL, list members and a non-member.  Lists avoid 0 half of the time so that the
+/// probe 0 is a NON-member next to a NULL element.
+fn static_filters_wide(run: &mut Run, rng: &mut Rng) {
+    use arrow::array::ArrayRef;
+    use arrow::datatypes::{Field, Schema};
+    let tys = [LTy::I(8), LTy::I(16), LTy::I(32), LTy::I(64), LTy::U(8), LTy::U(16), LTy::U(32), LTy::U(64), LTy::Dec, LTy::Utf8, LTy::Utf8View];
+    let lens = [1usize, 4, 5, 16, 17, 32, 33, 40, 70];
+    let reps = run.budget(2, 12);
+    for ty in tys {
+        for len in lens {
+            for null_elems in [0usize, 1, 3] {
+                for negated in [false, true] {
+                    for rep in 0..reps {
+                        let avoid_zero = rep % 2 == 0;
+                        let (lo, hi) = (ty.min().max(-120), ty.max().min(120));
+                        let mut vals: Vec<i128> = vec![];
+                        // boundary members sometimes
+                        if rng.chance(1, 3) {
+                            vals.push(ty.max());
+                        }
+                        if rng.chance(1, 3) && ty.min() != 0 {
+                            vals.push(ty.min());
+                        }
+                        let mut guard = 0;
+                        while vals.len() < len && guard < 10_000 {
+                            guard += 1;
+                            let v = lo + rng.below((hi - lo + 1) as u64) as i128;
+                            if (avoid_zero && v == 0) || vals.contains(&v) {
+                                continue;
+                            }
+                            vals.push(v);
+                        }
+                        vals.truncate(len);
+                        let mut hay: Vec<Option<i128>> = vals.iter().map(|v| Some(*v)).collect();
+                        for _ in 0..null_elems {
+                            let pos = rng.below(hay.len() as u64 + 1) as usize;
+                            hay.insert(pos, None);
+                        }
+                        let non_null = vals.len();
+                        let (strategy, w) = ty.strategy(non_null);
+                        let mut needles: Vec<Option<i128>> = vec![None, Some(0), Some(ty.min()), Some(ty.max()), Some(1), Some(hi.min(119) + 1)];
+                        needles.extend(vals.iter().take(3).map(|v| Some(*v)));
+                        needles.push(Some(lo + rng.below((hi - lo + 1) as u64) as i128));
+                        if matches!(ty, LTy::Utf8 | LTy::Utf8View) {
+                            for n in needles.iter_mut() {
+                                if let Some(v) = n {
+                                    *v = (*v).max(0);
+                                }
+                            }
+                        }
+                        // build the real expression and batch
+                        let schema = Arc::new(Schema::new(vec![Field::new("c0", ty.arrow(), true)]));
+                        let dfs = DFSchema::try_from(schema.as_ref().clone()).unwrap();
+                        let list: Vec<datafusion_expr::Expr> = hay.iter().map(|v| datafusion_expr::Expr::Literal(ty.scalar(*v), None)).collect();
+                        let de = datafusion_expr::in_list(datafusion_expr::col("c0"), list, negated);
+                        let p = match create_physical_expr(&de, &dfs, &ExecutionProps::new(), &PhysicalPlanningContext::default()) {
+                            Ok(p) => p,
+                            Err(m) => {
+                                run.oracle(false, &format!("in-list planning {ty:?} len={len}"), &m.to_string());
+                                continue;
+                            }
+                        };
+                        let col: ArrayRef = match datafusion_common::ScalarValue::iter_to_array(needles.iter().map(|v| ty.scalar(*v))) {
+                            Ok(a) => a,
+                            Err(m) => {
+                                run.oracle(false, &format!("needle array {ty:?}"), &m.to_string());
+                                continue;
+                            }
+                        };
+                        let batch = RecordBatch::try_new(Arc::clone(&schema), vec![col]).unwrap();
+                        let show = |r: Result<Vec<Val>, String>| match r {
+                            Ok(vs) => vs.iter().map(|v| match v { Val::Bool(true) => "t", Val::Bool(false) => "f", Val::Null => "u", _ => "?" }).collect::<Vec<_>>().join(" "),
+                            Err(m) => format!("err {}", err_class(&m)),
+                        };
+                        let whole = show(eval_batch(&p, &batch));
+                        run.count(&format!("wide:{strategy}:{ty:?}"));
+                        if null_elems > 0 && !vals.contains(&0) {
+                            run.count("wide:null-element-and-probe-equal-to-placeholder");
+                        }
+                        let hs = hay.iter().map(|v| v.map(|n| n.to_string()).unwrap_or("null".into())).collect::<Vec<_>>().join(" ");
+                        let ns = needles.iter().map(|v| v.map(|n| n.to_string()).unwrap_or("null".into())).collect::<Vec<_>>().join(" ");
+                        // the bitmap model is indexed by the w-bit pattern; every other filter is a set
+                        let model_strategy = if strategy == "bitmap" { "bitmap" } else if strategy == "branchless" { "branchless" } else { "hashset" };
+                        run.case("static", &format!("({model_strategy} {w} {} ({hs}) ({ns}))", if negated { "t" } else { "f" }), &whole, true);
+                        // engine against itself: every needle alone in a 1-row batch
+                        let mut single = vec![];
+                        for i in 0..needles.len() {
+                            single.push(show(eval_batch(&p, &batch.slice(i, 1))));
+                        }
+                        let single = single.join(" ");
+                        run.oracle(single == whole, &format!("in-list batch-vs-row {ty:?} neg={negated} list=({hs}) needles=({ns})"), &format!("whole batch: {whole} ; row by row: {single}"));
+                    }
+                }
+            }
+        }
+    }
+}
+
+/// AND / OR (and NOT above them) on batches of 5–64 rows whose left operand is NULL-free and
+/// decides 80–100 % of the rows, the right operand being, on the undecided rows, all false /
+/// all true / false+NULL / true+NULL / all NULL / mixed — the shapes that select `ReturnLeft`,
+/// `ReturnRight`, `PreSelection` (uniform collapse or scatter) in `BinaryExpr::evaluate`; both
+/// operand orders, both `evaluate` and `evaluate_selection`.
+fn preselection(run: &mut Run, rng: &mut Rng) {
+    let n = run.budget(1500, 40_000);
+    let cols: Vec<(String, Ty)> = vec![("l".into(), Ty::Bool), ("r".into(), Ty::Bool), ("a".into(), Ty::Int(64))];
+    for i in 0..n {
+        let len = 5 + rng.below(60) as usize;
+        let is_and = rng.chance(1, 2);
+        // the deciding value of the left operand: false for AND, true for OR
+        let decided_pct = *rng.pick(&[100u64, 95, 90, 85, 80, 80, 75, 50]);
+        let mut undecided: Vec<bool> = (0..len).map(|_| rng.below(100) >= decided_pct).collect();
+        if decided_pct < 100 && !undecided.iter().any(|u| *u) {
+            undecided[rng.below(len as u64) as usize] = true;
+        }
+        let pattern = rng.below(7);
+        let mut rows = vec![];
+        for u in &undecided {
+            let l = if *u { is_and } else { !is_and };
+            let r = if *u {
+                match pattern {
+                    0 => Val::Bool(false),
+                    1 => Val::Bool(true),
+                    2 => if rng.chance(1, 2) { Val::Bool(false) } else { Val::Null },
+                    3 => if rng.chance(1, 2) { Val::Bool(true) } else { Val::Null },
+                    4 => Val::Null,
+                    _ => match rng.below(3) { 0 => Val::Bool(false), 1 => Val::Bool(true), _ => Val::Null },
+                }
+            } else {
+                match rng.below(3) { 0 => Val::Bool(false), 1 => Val::Bool(true), _ => Val::Null }
+            };
+            // `a` mirrors `l` as an integer so that the left operand can also be a comparison
+            rows.push(vec![Val::Bool(l), r, Val::Int(64, if l { 1 } else { 0 })]);
+        }
+        let left = if rng.chance(1, 3) { Expr::bin(Op::Gt, Expr::Col(2), Expr::i64(0)) } else { Expr::Col(0) };
+        let right = match rng.below(4) {
+            0 => Expr::Not(Box::new(Expr::Not(Box::new(Expr::Col(1))))),
+            1 => Expr::bin(Op::And, Expr::Col(1), Expr::Lit(Val::Bool(true), Ty::Bool, false)),
+            _ => Expr::Col(1),
+        };
+        let op = if is_and { Op::And } else { Op::Or };
+        let plain = matches!((&left, &right), (Expr::Col(0), Expr::Col(1)));
+        let swapped = rng.chance(1, 4);
+        let mut e = if swapped { Expr::bin(op, right, left) } else { Expr::bin(op, left, right) };
+        match rng.below(6) {
+            0 => e = Expr::Not(Box::new(e)),
+            1 => e = Expr::bin(if is_and { Op::Or } else { Op::And }, e, Expr::Col(1)),
+            2 => e = Expr::Is(*rng.pick(&[IsKind::True, IsKind::False, IsKind::Unknown, IsKind::Null]), rng.chance(1, 2), Box::new(e)),
+            _ => {}
+        }
+        let wrapped = !matches!(&e, Expr::Bin(..)) || matches!(&e, Expr::Bin(_, a, _) if matches!(&**a, Expr::Bin(..)));
+        let p = match physical(&e, &cols) {
+            Ok(p) => p,
+            Err(m) => {
+                run.oracle(false, &format!("preselection planning {}", e.sexp()), &m);
+                continue;
+            }
+        };
+        let batch = batch_of(&cols, &rows);
+        let res = eval_batch(&p, &batch);
+        let n_und = undecided.iter().filter(|u| **u).count();
+        run.count(&format!("presel:rhs-pattern-{pattern}"));
+        run.count(if n_und == 0 { "presel:lhs-decides-all" } else if n_und * 5 <= len { "presel:lhs-decides>=80%" } else { "presel:lhs-decides<80%" });
+        run.case("evalrows", &format!("({} {} {})", e.sexp(), rows_sexp(&rows), impl_sexp(&res)), "ok", true);
+        // the strategy model itself, for the plain `l op r`
+        if plain && !swapped && !wrapped {
+            if let Ok(vs) = &res {
+                let ans = vs.iter().map(|v| match v { Val::Bool(true) => "t", Val::Bool(false) => "f", _ => "u" }).collect::<Vec<_>>().join(" ");
+                let rs = rows.iter().map(|r| format!("({} {})", if r[0] == Val::Bool(true) { "t" } else { "f" }, match &r[1] { Val::Bool(true) => "t", Val::Bool(false) => "f", _ => "u" })).collect::<Vec<_>>().join(" ");
+                run.case("presel", &format!("({} ({rs}))", if is_and { "t" } else { "f" }), &ans, true);
+            }
+        }
+        // evaluate_selection
+        let mask_vals: Vec<Option<bool>> = rows.iter().map(|_| match rng.below(6) { 0 => None, 1 => Some(false), _ => Some(true) }).collect();
+        let mask = BooleanArray::from(mask_vals.clone());
+        let sel = eval_sel(&p, &batch, &mask);
+        let mask_s = format!("({})", mask_vals.iter().map(|m| if *m == Some(true) { "t" } else { "f" }).collect::<Vec<_>>().join(" "));
+        run.case("evalsel", &format!("({} {} {} {})", e.sexp(), rows_sexp(&rows), mask_s, impl_sexp(&sel)), "ok", true);
+        // engine against itself: row by row on 1-row batches
+        if let Ok(bv) = &res {
+            let mut bad = None;
+            for (j, r) in rows.iter().enumerate() {
+                if let Ok(sv) = eval_batch(&p, &batch_of(&cols, std::slice::from_ref(r))) {
+                    if sv[0] != bv[j] {
+                        bad = Some(format!("row {j} {}: batch value {} , single-row value {}", row_sexp(r), bv[j].sexp(), sv[0].sexp()));
+                        break;
+                    }
+                }
+            }
+            run.oracle(bad.is_none(), &format!("and-or batch-vs-row#{i} {} rows={}", e.sexp(), rows_sexp(&rows)), &bad.unwrap_or_default());
+        }
+    }
+}
+
 /// CASE whose THEN/ELSE expressions fail on rows that their WHEN excludes
 fn guarded_case(run: &mut Run, rng: &mut Rng) {
     let n = run.budget(400, 8000);
@@ -379,5 +651,7 @@ pub fn run(run: &mut Run, args: &Args) {
     generic(run, &mut rng);
     static_filters(run, &mut rng);
     guarded_case(run, &mut rng);
+    static_filters_wide(run, &mut rng);
+    preselection(run, &mut rng);
     let _: Option<ArrayRef> = None;
 }
